@@ -1,24 +1,278 @@
 package c02
 
-// Known findings of C02: one id per root cause, an exclusion class as narrow as the root cause
-// allows, active only while the witness still fails (harness.Known).
+import (
+	"fmt"
+	"strings"
 
-var allFindingIDs = []string{}
+	"github.com/robertkrimen/otto"
+	"github.com/robertkrimen/otto/parser"
 
-func registerWitnesses() {}
+	"verif/lib/harness"
+)
+
+// Known findings of C02: one id per ROOT CAUSE (the fix that removes the crashers), a witness that is
+// executed in a worker subprocess at the start of every run (several of them kill the process), and
+// an exclusion class as narrow as the root cause allows, active only while the witness still fails.
+
+type finding struct {
+	ID      string
+	Witness func() string // runs inside the worker; "" = behaves (returns a value or an error); may not return at all
+}
+
+// w runs one API call under guard and describes an escaping Go panic ("" = none).
+func w(fn func()) string {
+	p, _, text := guard(fn)
+	if p {
+		return "Go panic crossed the API: " + text
+	}
+	return ""
+}
+
+func wRun(src string) string {
+	vm := newVM(64, 100_000)
+	prepareVM(vm)
+	return w(func() { _, _ = vm.Run(src) })
+}
+
+// wCallAtRest: Value.Call from Go while no script is running.
+func wCallAtRest(fnExpr, thisExpr string, argExprs ...string) string {
+	vm := newVM(64, 100_000)
+	prepareVM(vm)
+	f, _ := vm.Run("(" + fnExpr + ")")
+	this, _ := vm.Run("(" + thisExpr + ")")
+	var args []interface{}
+	for _, a := range argExprs {
+		v, _ := vm.Run("(" + a + ")")
+		args = append(args, v)
+	}
+	return w(func() { _, _ = f.Call(this, args...) })
+}
+
+var findings = []finding{
+	{"C02-THROW-UNPRINTABLE", func() string { return wRun(`throw {toString:function(){throw 1}}`) }},
+	{"C02-OTTOCALL-EMPTY-BODY", func() string {
+		vm := newVM(64, 100_000)
+		return w(func() { _, _ = vm.Call("// a comment", nil) })
+	}},
+	{"C02-PARSER-DUP-LABEL", func() string {
+		_, err := parser.ParseFile(nil, "", strings.Repeat("a:", 120)+";", 0)
+		if el, ok := err.(*parser.ErrorList); ok && el != nil && len(*el) > 1000 {
+			return fmt.Sprintf("120 nested labels `a:` produce %d syntax errors (quadratic; each costs O(offset)): 5000 levels = 15 KB of source take minutes and gigabytes", len(*el))
+		}
+		return ""
+	}},
+	{"C02-REGEXP-PROTOTYPE-NIL", func() string { return wRun(`RegExp.prototype.test("x")`) }},
+	{"C02-TOLOCALESTRING-TAG", func() string { return wRun(`(1).toLocaleString("not a tag")`) }},
+	{"C02-OBJECT-ASSIGN-PRIMITIVE", func() string { return wRun(`Object.assign(1, {a:1})`) }},
+	{"C02-REPLACE-INVALID-UTF8", func() string { return wRun(`"abc".replace(__gobad, "x")`) }},
+	{"C02-NATIVE-RECURSION-AT-REST", func() string {
+		return wCallAtRest(`Array.prototype.join`, `(function(){var a=[1];a[1]=a;return a})()`)
+	}},
+	{"C02-JSON-STRINGIFY-DEPTH", func() string { return wRun(`JSON.stringify(1, Array)`) }},
+	{"C02-GOBRIDGE-RAW-ERROR", func() string { return wRun(`__gomapint["abc"] = "x"`) }},
+	{"C02-GOMAP-NIL", func() string { return wRun(`__gonilmap.a = 1`) }},
+	{"C02-GOSLICE-SETLEN", func() string { return wRun(`__goslice.length = 1`) }},
+	{"C02-GOSLICE-SET-NIL", func() string { return wRun(`__gosliceany[0] = undefined`) }},
+	{"C02-GOSLICE-DELETE", func() string { return wRun(`delete __goslice.foo`) }},
+	{"C02-EXPORT-UNGUARDED", func() string {
+		vm := newVM(64, 100_000)
+		v, _ := vm.Run(`({get a(){throw new Error("g")}})`)
+		return w(func() { _, _ = v.Export() })
+	}},
+	{"C02-EXPORT-CYCLE", func() string {
+		vm := newVM(64, 100_000)
+		v, _ := vm.Run(`(function(){var o={};o.self=o;return o})()`)
+		return w(func() { _, _ = v.Export() })
+	}},
+}
+
+var allFindingIDs = func() []string {
+	var out []string
+	for _, f := range findings {
+		out = append(out, f.ID)
+	}
+	return out
+}()
+
+func runWitness(id string) (res jobResult) {
+	for _, f := range findings {
+		if f.ID == id {
+			res.Note = f.Witness()
+			return res
+		}
+	}
+	res.Note = "unknown witness " + id
+	return res
+}
+
+func registerWitnesses() {
+	for _, f := range findings {
+		id := f.ID
+		harness.RegisterWitness(id, func() (bool, string) {
+			wk := pool.get()
+			defer pool.put(wk)
+			resp, st, detail := wk.w.Do(job{Kind: "witness", Witness: id}, watchdog)
+			switch st {
+			case harness.WorkerDied:
+				if h := crashHead(wk.stderr); h != "" {
+					detail = h
+				}
+				return true, "worker process died: " + detail
+			case harness.WorkerTimeout:
+				return true, "worker stopped answering: " + detail
+			}
+			var r jobResult
+			if err := jsonUnmarshal(resp, &r); err != nil {
+				return true, "undecodable witness answer"
+			}
+			if r.Note == "" {
+				return false, "returns a value or an error"
+			}
+			return true, r.Note
+		})
+	}
+}
+
+// ---- exclusion classes --------------------------------------------------------------------------------------
+
+func isOneOf(s string, set ...string) bool {
+	for _, x := range set {
+		if s == x {
+			return true
+		}
+	}
+	return false
+}
+
+// cyclicKind: values whose enumerable own-property graph has a cycle or never ends.
+func cyclicKind(k kind) bool {
+	return isOneOf(k.Name, "cyclic-object", "array-cyclic", "error-hostile", "getter-returns-self", "getter-makes-new")
+}
+
+var arrayMutators = []string{"Array.prototype.pop", "Array.prototype.push", "Array.prototype.shift", "Array.prototype.unshift", "Array.prototype.splice", "Array.prototype.reverse", "Array.prototype.sort"}
+var arg0Writers = []string{"Object.assign", "Object.defineProperty", "Object.defineProperties", "Object.freeze", "Object.seal", "Object.preventExtensions"}
 
 // excludedCall: the (function, receiver, arguments, way) classes steered around in facet builtin-surface.
-func excludedCall(fn fnEntry, recv kind, ap argPlan, ks []kind, way int) string { return "" }
+func excludedCall(fn fnEntry, recv kind, ap argPlan, ks []kind, way int) string {
+	arg := func(i int) (kind, bool) {
+		if i < len(ap.Kinds) {
+			if ap.Reenter == i {
+				return kind{Name: "reentrant-callback", Home: "function", Hostile: true}, true
+			}
+			return ks[ap.Kinds[i]], true
+		}
+		return kind{}, false
+	}
+	a0, has0 := arg(0)
+	// the receiver the function actually sees
+	this := recv
+	switch way {
+	case 1: // new f(...): a fresh object
+		this = kind{Name: "new-object"}
+	case 3:
+		if recv.Name == "undefined" { // Otto.Call(path, nil): a method call on the owner
+			this = kind{Name: fn.Owner}
+		}
+	case 4:
+		this = kind{Name: fn.Owner}
+	}
+	anyArg := func(pred func(kind) bool) bool {
+		for i := range ap.Kinds {
+			if k, ok := arg(i); ok && pred(k) {
+				return true
+			}
+		}
+		return false
+	}
+	if known("C02-REGEXP-PROTOTYPE-NIL") {
+		if isOneOf(fn.Path, "RegExp.prototype.exec", "RegExp.prototype.test") && this.Name == "RegExp.prototype" && way != 1 {
+			return "C02-REGEXP-PROTOTYPE-NIL"
+		}
+		if isOneOf(fn.Path, "String.prototype.match", "String.prototype.replace", "String.prototype.search", "String.prototype.split") && has0 && a0.Name == "RegExp.prototype" {
+			return "C02-REGEXP-PROTOTYPE-NIL"
+		}
+	}
+	if known("C02-TOLOCALESTRING-TAG") && fn.Path == "Number.prototype.toLocaleString" && has0 && a0.Name != "undefined" && !isOneOf(a0.Name, "locale-en-US", "locale-de") {
+		return "C02-TOLOCALESTRING-TAG"
+	}
+	if known("C02-OBJECT-ASSIGN-PRIMITIVE") && fn.Path == "Object.assign" && has0 && a0.Prim {
+		return "C02-OBJECT-ASSIGN-PRIMITIVE"
+	}
+	if known("C02-REPLACE-INVALID-UTF8") && fn.Path == "String.prototype.replace" && has0 && a0.Name == "invalid-utf8" {
+		return "C02-REPLACE-INVALID-UTF8"
+	}
+	if known("C02-NATIVE-RECURSION-AT-REST") && (way == 2 || way == 4) {
+		// Value.Call / Object.Call while no script runs: native → native recursion enters no scope,
+		// so the stack depth limit never fires; the cyclic array is the value that recurses natively
+		cyc := func(k kind) bool { return k.Name == "array-cyclic" }
+		if cyc(this) || anyArg(cyc) {
+			return "C02-NATIVE-RECURSION-AT-REST"
+		}
+	}
+	if known("C02-JSON-STRINGIFY-DEPTH") && fn.Path == "JSON.stringify" {
+		// a replacer that answers every call with a fresh object makes the native walk descend for ever;
+		// steered around: every callable second argument except the ones known to return primitives
+		if a1, ok := arg(1); ok && a1.Home == "function" && !isOneOf(a1.Name, "function", "function-throws", "function-throws-primitive", "function-compare", "function-inconsistent", "native-fn", "ctor-Date", "ctor-Function", "ctor-RegExp", "eval-fn", "go-func") {
+			return "C02-JSON-STRINGIFY-DEPTH"
+		}
+	}
+	// bridged Go containers written through built-ins
+	writesThis := isOneOf(fn.Path, arrayMutators...)
+	writesArg0 := isOneOf(fn.Path, arg0Writers...)
+	target := func(pred func(kind) bool) bool {
+		return (writesThis && pred(this)) || (writesArg0 && has0 && pred(a0))
+	}
+	if known("C02-GOBRIDGE-RAW-ERROR") && target(func(k kind) bool { return isOneOf(k.Name, "go-map-int", "go-nil-map", "go-slice", "go-array") }) {
+		return "C02-GOBRIDGE-RAW-ERROR"
+	}
+	if known("C02-GOMAP-NIL") && target(func(k kind) bool { return k.Name == "go-nil-map" }) {
+		return "C02-GOMAP-NIL"
+	}
+	if known("C02-EXPORT-CYCLE") && target(func(k kind) bool { return k.Name == "go-map" }) && (anyArg(cyclicKind) || cyclicKind(this)) {
+		return "C02-EXPORT-CYCLE" // a value stored into map[string]interface{} is exported first
+	}
+	if known("C02-GOSLICE-SETLEN") && target(func(k kind) bool { return isOneOf(k.Name, "go-slice", "go-slice-any", "go-array") }) {
+		return "C02-GOSLICE-SETLEN"
+	}
+	if known("C02-GOSLICE-SET-NIL") && target(func(k kind) bool { return k.Name == "go-slice-any" }) {
+		return "C02-GOSLICE-SET-NIL"
+	}
+	return ""
+}
 
-func excludedAccess(accessor string, k kind) string { return "" }
+func excludedAccess(accessor string, k kind) string {
+	if isOneOf(accessor, "Value.Export", "Otto.Set(exported)") {
+		if known("C02-EXPORT-CYCLE") && (cyclicKind(k) || (k.Name == "global" && accessor == "Otto.Set(exported)")) {
+			// (the earlier accessor call Otto.Set("__v", global) has made the global object cyclic)
+			return "C02-EXPORT-CYCLE"
+		}
+		if known("C02-EXPORT-UNGUARDED") && isOneOf(k.Name, "throwing-getters", "arraylike-throwlen", "array-with-getter-element", "getter-recursive", "conv-throws-unprintable") {
+			return "C02-EXPORT-UNGUARDED"
+		}
+	}
+	if known("C02-NATIVE-RECURSION-AT-REST") && isOneOf(k.Name, "array-cyclic") &&
+		(strings.HasPrefix(accessor, "Value.String") || strings.HasPrefix(accessor, "fmt.") || isOneOf(accessor, "Value.ToString", "Value.ToFloat", "Value.ToInteger", "Value.IsNaN", "Object.Value") || strings.HasPrefix(accessor, "Value.Call(") || strings.HasPrefix(accessor, "Object.Call(")) {
+		return "C02-NATIVE-RECURSION-AT-REST"
+	}
+	if strings.HasPrefix(accessor, "Object.Set(") {
+		if known("C02-GOBRIDGE-RAW-ERROR") && isOneOf(k.Name, "go-map-int", "go-nil-map", "go-slice", "go-array") {
+			return "C02-GOBRIDGE-RAW-ERROR"
+		}
+		if known("C02-GOMAP-NIL") && k.Name == "go-nil-map" {
+			return "C02-GOMAP-NIL"
+		}
+		if known("C02-GOSLICE-SETLEN") && isOneOf(k.Name, "go-slice", "go-slice-any", "go-array") && strings.Contains(accessor, `"length"`) {
+			return "C02-GOSLICE-SETLEN"
+		}
+	}
+	return ""
+}
 
 func excludedRecur(c recurCase) string { return "" }
 
-func knownSourcePanic(p escaped) string { return "" }
-
-// excludedSource: nesting of one label deeper than 300 (see C02-PARSER-DUP-LABEL).
+// excludedSource: one label nested deeper than 300 (C02-PARSER-DUP-LABEL).
 func excludedSource(c sourceCase) string {
-	if known("C02-PARSER-DUP-LABEL") || true {
+	if known("C02-PARSER-DUP-LABEL") {
 		for _, p := range c.Pieces {
 			if p.N > 300 && labelOpener(p.T) {
 				return "C02-PARSER-DUP-LABEL"
@@ -29,5 +283,24 @@ func excludedSource(c sourceCase) string {
 }
 
 func labelOpener(t string) bool {
-	return t == "{a:" || t == "a:" || t == "{a:{"
+	t = strings.TrimSpace(t)
+	return t == "{a:" || t == "a:" || t == "a:a:"
 }
+
+// skipOttoCallNil: Otto.Call(src, nil) indexes body[0] of the program parsed from src+"()"; when that
+// program has no statement (src ends in a line comment that swallows the parentheses, …) it panics.
+func skipOttoCallNil(src string) bool {
+	if !known("C02-OTTOCALL-EMPTY-BODY") {
+		return false
+	}
+	var empty bool
+	guard(func() {
+		p, err := parser.ParseFile(nil, "", src+"()", 0)
+		empty = err == nil && p != nil && len(p.Body) == 0
+	})
+	return empty
+}
+
+func knownSourcePanic(p escaped) string { return "" }
+
+var _ = otto.New
